@@ -88,6 +88,23 @@ def run_matcher_rules(ck, repo, thorough=False):
     ck.count('encoder shift sites', len(msh) + len(qsh))
     ck.count('encoder constant sites', len([s for s in a['m_sites'] + a['q_sites'] + a['mb_sites'] + a['qc_sites'] if s.kind == 'const']))
 
+    # (0) a contribution made once per element of a multi-valued field accumulates ------------------------------------------
+    R0 = 'C09.D1-accumulate-in-loops'
+    ck.rule(R0, 'inside a loop over the values of a list-valued query field (element lists, neighbour / hybridisation / ring-size lists, bond order lists) every mask '
+                'contribution is OR-ed in (`|=`): a plain assignment keeps only the last value of the list')
+    n_loop = 0
+    for which, sites, loc_ in (('molecule', a['m_sites'], mloc), ('molecule-bond', a['mb_sites'], mloc), ('query', a['q_sites'], qloc), ('closure', a['qc_sites'], qloc)):
+        for s_ in sites:
+            loops_ = [t for t, _ in s_.path if t.startswith('for ')]
+            if not loops_ or s_.kind == 'carry':
+                continue
+            n_loop += 1
+            ck.decide(not s_.assign, R0, f'{which}:{s_.var}@{loops_[-1][:40]}:{s_.kind}:{s_.value if s_.kind == "const" else s_.field}', None,
+                      f'{which} encoder: `{s_.var} = ...` (plain assignment) inside `{loops_[-1]}`: every value of the list overwrites the bits of the previous one, '
+                      f'only the last survives; the reference matcher accepts any value of the list', line=s_.line, **loc_)
+    ck.count(f'{R0}: contributions inside loops', n_loop)
+    ck.floor(R0, 6)
+
     # (i) same position for every value of every field ---------------------------------------------------------------
     R = 'C09.D1-i-positions'
     ck.rule(R, 'for every attribute value the molecule encoder and every query-encoder site put the bit in the same word '
@@ -117,6 +134,8 @@ def run_matcher_rules(ck, repo, thorough=False):
                 ck.bad(R, f'mol:{f}={v}:range', f'molecule encoder shifts {f}={v} to bit {b}, outside the 64-bit word', line=sites[0].line, **mloc)
                 continue
             mpos[(f, v)] = (w, b)
+    if any((f, v) not in mpos for f, d in dom.items() for v in d):
+        return a  # the molecule layout itself is broken (reported above): the comparisons below have nothing to compare against
     for f, d in dom.items():
         sites = [s for s in qsh if s.field == f]
         ck.require(sites, f'query encoder has no shift site for {f}')
